@@ -24,6 +24,20 @@ chk('C02', 'exploration',
     'Every expression tree up to depth 2 over all operators (every outer/left/right operator triple; thorough: every atom at every leaf, depth-3 spines), printed with minimal and with full parentheses from the documented precedence table in 12 expression contexts and 3 layouts, a literal table (hex/exponent/INT64 boundary/escapes/long strings) and every statement and declaration derivation within 2 (quick) / 3 (thorough) deviations of its default form is parsed by the real parser and compared structurally with the intended tree (identifiers, operators, literal values, order, grouping).',
     'Trusts: the independent printer and intended-tree generator (mc/gen), written from docs/parser.md and the property text; unparenthesised chains of one associative operator are compared flattened.')
 
+FMT = 'Programs: every statement/declaration derivation within 2 (quick) / 3 (thorough) deviations of its default form, 4 wide programs that force wrapping, all 66 example files. Configurations: default, all 23 single deviations over the documented option domains for every program, all pairs (quick) / triples (thorough) for programs within 1 deviation and pairs for the example files, plus the all-options corner. Comment decorations: a #, // or /* */ comment at every documented placeholder of every program within 1 deviation, every pair of placeholders (thorough: triples), all placeholders at once, and falco annotations / #FASTLY macros at leading slots, under 9 comment-relevant configurations. About 1.0e6 (program, configuration) cases in the quick tier, all run through the real parser and formatter. '
+chk('C03', 'exploration',
+    'bounded-exhaustive enumeration of programs x formatter configurations; oracle: tree(parse(format(p))) == tree(p) modulo the documented rewrites',
+    FMT + 'Oracle: the formatter returns text, the text parses, and its tree equals the original tree in every declaration, statement, operator, identifier, argument and literal value, after applying exactly the rewrites the enabled options document.',
+    'Trusts: mc/gen (generator, printer, reflection-based tree dump); tree comparison ignores positions/comments, the Explicit flag of +, HasComma and HasParenthesis; else-if keyword, remove/unset and property/declaration order are normalised only when the corresponding option is on. 35 known-finding classes (one root cause for 34 of them) are listed in known_findings.json.', '§4 C03')
+chk('C14', 'exploration',
+    'bounded-exhaustive enumeration of programs x formatter configurations; oracle: format(format(p)) == format(p) byte for byte',
+    FMT + 'Oracle: F(P(F(P(s)))) == F(P(s)) byte for byte.',
+    'Cases whose first output does not parse belong to C03 and are skipped here. Known findings listed in known_findings.json.', '§4 C03/C14/C15')
+chk('C15', 'exploration',
+    'bounded-exhaustive enumeration of comment placements x configurations; oracle: comment token sequence of the output equals that of the input',
+    FMT + 'Oracle: the sequence of COMMENT tokens (falco lexer) of the output equals that of the input — each once, same text up to the line-comment marker when comment_style is set, same relative order (multiset only when a sort option is on).',
+    'Trusts: the placeholder table transcribed from docs/parser.md in mc/gen/print.go. Known findings (placeholders whose comments are dropped; line comments at inline placeholders) listed in known_findings.json.', '§4 C03/C14/C15')
+
 NOT_YET = {i: 'check not built yet in this session (design in DESIGN.md §4); will be claimed once its command exists' for i in ids if i not in CHECKS}
 
 m = {
